@@ -56,25 +56,20 @@ func (hc *c18HistCfg) report(key, hist string) bool {
 }
 
 type c18HistSys struct {
-	hc     *c18HistCfg
-	pl     *LowNodeLoad
-	h      *c18Handle
-	l      *c18Lister
-	cons   [2][]int // reference: consecutive rounds (ending with the last one) above the high threshold, per tier/node
-	lastNo [2][]string
-	res    *mc.Result
-	hist   []byte
+	hc   *c18HistCfg
+	pl   *LowNodeLoad
+	h    *c18Handle
+	l    *c18Lister
+	anom *c18Anom // reference state of the anomaly clause
+	res  *mc.Result
+	hist []byte
 }
 
 func c18NewHistSys(hc *c18HistCfg, res *mc.Result) *c18HistSys {
 	s := &c18HistSys{hc: hc, res: res}
 	s.pl, s.h, s.l = c18NewPlugin(&hc.cfg)
 	s.h.ev.failAll = hc.failAll
-	n := len(hc.ops[0].Nodes)
-	for t := 0; t < 2; t++ {
-		s.cons[t] = make([]int, n)
-		s.lastNo[t] = make([]string, n)
-	}
+	s.anom = c18NewAnom(len(hc.ops[0].Nodes))
 	return s
 }
 
@@ -83,45 +78,42 @@ func (s *c18HistSys) Apply(op int, check bool) (bool, []mc.Violation) {
 	cfg := &s.hc.cfg
 	s.hist = append(s.hist, byte(op))
 	ref := c18Compute(cfg, rd)
-	for t := 0; t < 2; t++ {
-		for i := range rd.Nodes {
-			if ref.valid[i] && ref.over[t][i] {
-				s.cons[t][i]++
-				continue
-			}
-			s.cons[t][i] = 0
-			switch {
-			case !ref.valid[i]:
-				s.lastNo[t][i] = "no-metric"
-			case ref.under[t][i]:
-				s.lastNo[t][i] = "underused"
-			default:
-				s.lastNo[t][i] = "between-thresholds"
-			}
-		}
-	}
+	s.anom.beginRound(cfg, ref)
 	calls := c18RunRound(s.pl, s.h, s.l, cfg, rd)
 	if !check {
+		s.anom.endRound(cfg, rd, ref, calls)
 		return true, nil
 	}
-	finds, st := c18Judge(cfg, rd, ref, calls, &s.cons)
+	finds, st := c18Judge(cfg, rd, ref, calls, s.anom)
 	st.countInto(s.res.Count)
+	streaks := fmt.Sprintf("streak %v open %v", s.anom.streak, s.anom.open)
+	defer func() {
+		// the drains of this round resolve episodes only after the round has been judged
+		if c := s.anom.endRound(cfg, rd, ref, calls); c > 0 && cfg.AnomalyK >= 2 {
+			s.res.Count("episodes_resolved_by_drain_back_under", int64(c))
+		}
+	}()
 	var viol []mc.Violation
 	for _, f := range finds {
 		key := c18Key("hist", f) // part-independent: the same defect class has one key in every configuration
 		if strings.HasPrefix(f.Clause, "anomaly-not-consecutive") {
-			// class of the witness: what the node looked like in the round that broke the streak
+			// class of the witness: what the node looked like in the round that cut the streak, and how its last
+			// abnormal episode (if any) had been resolved
+			t := c18TierNode
+			if strings.HasSuffix(f.Clause, "prod") {
+				t = c18TierProd
+			}
 			for _, c := range calls {
-				t := c18TierNode
-				if strings.HasSuffix(f.Clause, "prod") {
-					t = c18TierProd
-				}
-				if !c.Unknown && s.cons[t][c.Node] < int(cfg.AnomalyK) {
-					gap := s.lastNo[t][c.Node]
-					if gap == "" {
-						gap = "none(first-rounds)"
+				if !c.Unknown && s.anom.streak[t][c.Node] < int(cfg.AnomalyK) && !s.anom.open[t][c.Node] {
+					if ep := s.anom.closedBy[t][c.Node]; ep != "" {
+						key += "|episode-resolved-by:" + ep
+					} else {
+						gap := s.anom.lastNo[t][c.Node]
+						if gap == "" {
+							gap = "none(first-rounds)"
+						}
+						key += "|no-episode|streak-broken-by:" + gap
 					}
-					key += "|streak-broken-by:" + gap
 					break
 				}
 			}
@@ -130,7 +122,7 @@ func (s *c18HistSys) Apply(op int, check bool) (bool, []mc.Violation) {
 			s.res.Count("violations_not_reported_beyond_witness_limit", 1)
 			continue
 		}
-		viol = append(viol, mc.Violation{Key: key, What: fmt.Sprintf("%s; config {%s}; last snapshot %+v; recorded calls %+v; reference streaks %v", f.What, cfg.String(), rd.Nodes, calls, s.cons)})
+		viol = append(viol, mc.Violation{Key: key, What: fmt.Sprintf("%s; config {%s}; last snapshot %+v; recorded calls %+v; reference %s", f.What, cfg.String(), rd.Nodes, calls, streaks)})
 	}
 	return true, viol
 }
@@ -142,30 +134,40 @@ func (s *c18HistSys) Invariants() []mc.Violation { return nil }
 // the condition functions LowNodeLoad installs (Total* counters and the generation are write-only; the expiration
 // of the anomaly state is a day away). The counters are capped at k+n+2: the anomaly condition fires at > k in the
 // ok state, the normal condition at > n in the anomaly state, so larger values are behaviourally equal. The
-// reference streak counters are part of the key (capped at k: the oracle only compares them with k).
+// reference state of the anomaly clause is part of the key (streaks capped at k, normal-round counters at n+1: the
+// oracle only compares them with k and n).
 func (s *c18HistSys) Key() string {
 	cfg := &s.hc.cfg
 	cp := cfg.AnomalyK + cfg.AnomalyN + 2
 	k := "node{" + c18DetectorDump(s.pl.nodeAnomalyDetectors, cp) + "} prod{" + c18DetectorDump(s.pl.prodAnomalyDetectors, cp) + "} ref"
+	if cfg.AnomalyK < 2 {
+		return k // no anomaly clause: the reference state plays no role
+	}
 	for t := 0; t < 2; t++ {
-		for i, v := range s.cons[t] {
+		for i, v := range s.anom.streak[t] {
 			if v > int(cfg.AnomalyK) {
 				v = int(cfg.AnomalyK)
 			}
-			gap := ""
-			if v < int(cfg.AnomalyK) {
-				gap = s.lastNo[t][i] // only used to name the witness class; kept in the key so the class is stable
+			nm := s.anom.normals[t][i]
+			if nm > int(cfg.AnomalyN)+1 || !s.anom.open[t][i] {
+				nm = 0 // only compared with n while an episode is open
 			}
-			k += fmt.Sprintf(" %d%s", v, gap)
+			cls := ""
+			if v < int(cfg.AnomalyK) && !s.anom.open[t][i] {
+				// only used to name the witness class; kept in the key so that the class is stable
+				if cls = s.anom.closedBy[t][i]; cls == "" {
+					cls = s.anom.lastNo[t][i]
+				}
+			}
+			k += fmt.Sprintf(" %d,%v,%d,%s", v, s.anom.open[t][i], nm, cls)
 		}
 		k += "|"
 	}
 	return k
 }
 
-// c18HistOps: every assignment of per-node symbols to the nodes; the last `restricted` nodes only take the first
-// `restrictedSyms` symbols.
-func c18HistOps(cfg *c18Cfg, nodes int, syms []string, restricted, restrictedSyms int) ([]c18Round, []string) {
+// c18HistOps: every assignment of per-node symbols to the nodes (one symbol list per node).
+func c18HistOps(cfg *c18Cfg, perNode [][]string) ([]c18Round, []string) {
 	alloc := c18AllocA
 	np, pr := false, true
 	mk := func(sym string) c18Node {
@@ -178,6 +180,8 @@ func c18HistOps(cfg *c18Cfg, nodes int, syms []string, restricted, restrictedSym
 			return c18MkNode(alloc, c18Vec{alloc[0] * 9 / 10, alloc[1] / 2}, []c18Pod{c18P(1600, np, c18FlagOK), c18P(1600, np, c18FlagOK), c18P(1600, pr, c18FlagOK)})
 		case "P": // 50 %, prod share 40 %: above the prod high threshold only
 			return c18MkNode(alloc, c18Vec{alloc[0] / 2, alloc[1] / 2}, []c18Pod{c18P(1600, pr, c18FlagOK), c18P(1600, pr, c18FlagOK), c18P(400, np, c18FlagOK)})
+		case "G": // 90 %, exactly two pods: the drain that brings the node back under takes its last pod
+			return c18MkNode(alloc, c18Vec{alloc[0] * 9 / 10, alloc[1] / 2}, []c18Pod{c18P(1600, np, c18FlagOK), c18P(1600, np, c18FlagOK)})
 		case "X": // no NodeMetric this round
 			n := c18MkNode(alloc, c18Vec{alloc[0] * 9 / 10, alloc[1] / 2}, []c18Pod{c18P(1600, np, c18FlagOK)})
 			n.Metric = c18MetMissing
@@ -185,12 +189,9 @@ func c18HistOps(cfg *c18Cfg, nodes int, syms []string, restricted, restrictedSym
 		}
 		panic(sym)
 	}
-	dims := make([]int, nodes)
+	dims := make([]int, len(perNode))
 	for i := range dims {
-		dims[i] = len(syms)
-		if i >= nodes-restricted {
-			dims[i] = restrictedSyms
-		}
+		dims[i] = len(perNode[i])
 	}
 	rx := mc.Radix{Dims: dims}
 	var ops []c18Round
@@ -199,9 +200,9 @@ func c18HistOps(cfg *c18Cfg, nodes int, syms []string, restricted, restrictedSym
 		d := rx.Decode(i, nil)
 		var rd c18Round
 		name := ""
-		for _, s := range d {
-			rd.Nodes = append(rd.Nodes, mk(syms[s]))
-			name += syms[s]
+		for ni, s := range d {
+			rd.Nodes = append(rd.Nodes, mk(perNode[ni][s]))
+			name += perNode[ni][s]
 		}
 		ops = append(ops, rd)
 		names = append(names, name)
@@ -221,37 +222,49 @@ func c18HistConfigs(env *mc.Env) []*c18HistCfg {
 		nodeFit  bool
 		numNodes int32
 		syms     []string
+		second   []string // quick tier: symbols of the second node (nil: the full list)
 		thorough bool
 		dq, dt   int
 	}
 	plain := []string{"L", "M", "H", "X"}
 	prod := []string{"L", "M", "H", "P"}
+	last := []string{"L", "M", "G"}
+	// NodeFit is off in every configuration with an anomaly condition: which pods are "removable" would otherwise
+	// depend on the fit check, and the witness class "the drain took the node's last candidate pod" is defined on the
+	// pods that pass the filters. (NodeFit itself is covered by the single-round parts and by hist-k1.)
+	// Order: the configurations whose interesting histories need the full quick depth come first.
 	vs := []v{
-		{"hist-nocond", base, 0, 0, false, false, 0, plain, false, 2, 2},
-		{"hist-k1", base, 1, 1, false, true, 0, plain, false, 2, 3},
-		{"hist-k2n1", base, 2, 1, false, false, 0, plain, false, 5, 8},
-		{"hist-k2n1-evictfail", base, 2, 1, true, false, 0, plain, false, 5, 8},
-		{"hist-k2n1-prod", withProd, 2, 1, false, true, 0, prod, false, 4, 8},
-		{"hist-k3n3", base, 3, 3, false, true, 0, plain, false, 5, 8},
-		{"hist-k2n3-numnodes1", base, 2, 3, false, false, 1, plain, true, 5, 8},
-		{"hist-k3n1-prod-evictfail", withProd, 3, 1, true, false, 0, prod, true, 5, 8},
+		{"hist-nocond", base, 0, 0, false, false, 0, plain, nil, false, 2, 2},
+		{"hist-k1", base, 1, 1, false, true, 0, plain, nil, false, 2, 3},
+		{"hist-k2n3", base, 2, 3, false, false, 0, plain, []string{"L", "H"}, false, 5, 8},
+		{"hist-k2n3-lastpod", base, 2, 3, false, false, 0, last, []string{"L", "G"}, false, 5, 8},
+		{"hist-k2n1", base, 2, 1, false, false, 0, plain, nil, false, 5, 8},
+		{"hist-k2n1-evictfail", base, 2, 1, true, false, 0, plain, nil, false, 5, 8},
+		{"hist-k2n1-prod", withProd, 2, 1, false, false, 0, prod, nil, false, 4, 8},
+		{"hist-k3n3", base, 3, 3, false, false, 0, plain, nil, false, 5, 8},
+		{"hist-k2n3-numnodes1", base, 2, 3, false, false, 1, plain, nil, true, 5, 8},
+		{"hist-k3n1-prod-evictfail", withProd, 3, 1, true, false, 0, prod, nil, true, 5, 8},
 	}
 	var out []*c18HistCfg
 	for _, x := range vs {
 		if x.thorough && !env.Thorough() {
 			continue
 		}
-		mk := func(name string, depth, restricted int) {
+		mk := func(name string, depth int, perNode [][]string) {
 			hc := &c18HistCfg{name: name, cfg: x.cfg, failAll: x.failAll, depth: depth}
 			hc.cfg.AnomalyK, hc.cfg.AnomalyN, hc.cfg.NodeFit, hc.cfg.NumNodes = x.k, x.n, x.nodeFit, x.numNodes
-			// restricted: the third node only alternates between underused and between-thresholds
-			hc.ops, hc.opNames = c18HistOps(&hc.cfg, 3, x.syms, restricted, 2)
+			hc.ops, hc.opNames = c18HistOps(&hc.cfg, perNode)
 			out = append(out, hc)
 		}
-		mk(x.name, env.Pick(x.dq, x.dt), 1)
+		// the third node only alternates between underused and between-thresholds
+		second := x.syms
+		if x.second != nil && !env.Thorough() {
+			second = x.second
+		}
+		mk(x.name, env.Pick(x.dq, x.dt), [][]string{x.syms, second, {"L", "M"}})
 		if env.Thorough() && x.k >= 2 {
 			// all three nodes over the full per-node alphabet, shallower
-			mk(x.name+"-full3", 4, 0)
+			mk(x.name+"-full3", 4, [][]string{x.syms, x.syms, x.syms})
 		}
 	}
 	return out
@@ -284,7 +297,7 @@ func TestVerifC18Hist(t *testing.T) {
 			env.Budget = now + (total-now)/time.Duration(len(cfgs)-ci)
 		}
 		res := mc.NewResult("C18", hc.name, "bfs")
-		res.Rule = fmt.Sprintf("BFS over all sequences of Balance rounds on one plugin instance; a round is a full 3-node snapshot, alphabet = %d snapshots (per node: L 10%%, M 50%%, H 90%%, P 50%% with prod share 40%%, X no NodeMetric); config {%s}, every Evict fails: %v; states deduplicated by detector states/counters + reference streak counters; the last round of each history is judged call by call", len(hc.ops), hc.cfg.String(), hc.failAll)
+		res.Rule = fmt.Sprintf("BFS over all sequences of Balance rounds on one plugin instance; a round is a full 3-node snapshot, alphabet = %d snapshots (per node: L 10%%, M 50%%, H 90%% with three pods, G 90%% with two pods, P 50%% with prod share 40%%, X no NodeMetric); config {%s}, every Evict fails: %v; states deduplicated by detector states/counters + reference streak counters; the last round of each history is judged call by call", len(hc.ops), hc.cfg.String(), hc.failAll)
 		res.Assumptions = append(append([]string{}, c18Assumptions...),
 			"successive rounds follow each other within the detector cache TTL and the anomaly-state timeout (both configured to 24 h): no detector expires between rounds",
 			"the snapshot of a round is independent of the evictions of earlier rounds (evicted pods may be re-created under the same name)")
